@@ -648,6 +648,17 @@ main(int argc, char** argv)
             is >> i;
             ChildOut r = run_child([&] { op_open((uint32_t)i); }, watchdog_ms);
             print_child(r, false);
+        } else if (op == "hopen2") {
+            // the same open after a second device manager has come and gone in the same process: what one manager's shutdown releases
+            // must not be something the other one still needs (driver-global tables)
+            unsigned long long i = 0;
+            is >> i;
+            ChildOut r = run_child([&] {
+                DeviceManager other = { 0 };
+                if (device_manager_init(&other, reporter) == Device_Ok) device_manager_destroy(&other);
+                op_hopen((uint32_t)i);
+            }, watchdog_ms);
+            print_child(r, false);
         } else if (op == "hopen") {
             unsigned long long i = 0;
             is >> i;
